@@ -82,6 +82,23 @@ fn alphabet(dist: bool) -> Vec<Item> {
         v.push(Item { name: "hdr_other_slots", frames: vec![(frame(&hdr_msg(&c1, Some(&p1), &atoms, false), 4), Exp::MsgKnownBroken(dm.clone(), "C06-atom-cache-resolution"))] });
         let c0 = RefVal::Tuple(vec![RefVal::int(2), RefVal::int(0), RefVal::int(7)]);
         v.push(Item { name: "hdr_no_atoms", frames: vec![(frame(&hdr_msg(&c0, Some(&RefVal::int(5)), &[], true), 4), Exp::Msg(DistMsg { control: c0.clone(), payload: Some(RefVal::int(5)) }))] });
+        // a control-only message announces cache entries; a later frame refers to them as old entries
+        {
+            let a2 = ["peer@127.0.0.1", "me@127.0.0.1"];
+            let table: Vec<String> = a2.iter().map(|a| a.to_string()).collect();
+            let link = RefVal::Tuple(vec![RefVal::int(1), peer_pid(3), my_pid(1)]);
+            let f1 = hdr_msg(&link, None, &a2, true);
+            let c2 = RefVal::Tuple(vec![RefVal::int(22), peer_pid(3), my_pid(1)]);
+            let p2 = RefVal::Tuple(vec![RefVal::atom("peer@127.0.0.1"), RefVal::atom("me@127.0.0.1")]);
+            let old: Vec<HdrRef> = (0..2).map(|i| HdrRef { segment: 0, index: i as u8, new_text: None }).collect();
+            let mut f2 = write_dist_header(&old);
+            w_term_cached(&mut f2, &c2, &table);
+            w_term_cached(&mut f2, &p2, &table);
+            v.push(Item { name: "hdr_control_only_announces_then_old_refs", frames: vec![
+                (frame(&f1, 4), Exp::Msg(DistMsg { control: link.clone(), payload: None })),
+                (frame(&f2, 4), Exp::Msg(DistMsg { control: c2.clone(), payload: Some(p2.clone()) })),
+            ] });
+        }
         // fragmented: the same identity-slot message cut into 2 and 3 fragments by the reference fragmenter
         let whole = hdr_msg(&c1, Some(&p1), &atoms, true);
         let body = &whole[2..]; // after 131,68
